@@ -505,10 +505,15 @@ fn aggregate(candidates: &[Candidate], opposing: bool) -> (f64, usize) {
     // Independent groups accumulate, with diminishing returns: two moderate
     // independent sources say more than either alone, but nothing here is a
     // calibrated probability, so the score is declared as normalized strength.
-    let score = 1.0
-        - groups
-            .iter()
-            .fold(1.0, |acc, (_, c)| acc * (1.0 - c.clamp(0.0, 1.0)));
+    //
+    // The groups are folded in a canonical order (ascending strength), not in
+    // the order they were formed: floating-point multiplication is not
+    // associative, so folding in recording order let the same set of
+    // assertions score an ulp apart depending on which was recorded first —
+    // enough to land on different sides of a policy threshold.
+    let mut strengths: Vec<f64> = groups.iter().map(|(_, c)| c.clamp(0.0, 1.0)).collect();
+    strengths.sort_by(f64::total_cmp);
+    let score = 1.0 - strengths.iter().fold(1.0, |acc, c| acc * (1.0 - c));
     (score, groups.len())
 }
 
